@@ -12,7 +12,7 @@ from types import ModuleType
 from typing import Any, Callable, Dict, Optional, Set
 
 from ._common import Action
-from ._namespace import Namespace
+from ._namespace import Namespace, recreate_branches
 from ._type_checking import ArgumentParser
 
 __all__ = [
@@ -136,7 +136,7 @@ def parse_as_dict_patch():
         self, cfg: Union[Namespace, Dict[str, Any]], **kwargs
     ) -> Union[Namespace, Dict[str, Any]]:
         if isinstance(cfg, dict):
-            cfg = self._apply_actions(cfg)
+            cfg = self._apply_actions(recreate_branches(cfg))
         cfg = self._unpatched_instantiate_classes(cfg, **kwargs)
         return cfg.as_dict() if self._parse_as_dict else cfg
 
